@@ -176,7 +176,10 @@ def run_prog_property(ctx, prop_files, gen_case, classes, n_quick, n_thorough, r
         pre_run(ctx)
     n = n_quick if ctx.tier == "quick" else n_thorough
     corpus = load_corpus(ctx.prop)
-    cases = [(s, {"corpus": True}) for s in corpus] + [gen_case(ctx.rng, ctx.tier) for _ in range(n)]
+    # recorded known findings of this property whose replay is a prog script are replayed first: still failing -> KNOWN-FINDING
+    known_cases = [(k["replay"], {"known": k["signature"], "dist": ["known_finding_replay"]}) for k in ctx.known
+                   if str(k.get("replay", "")).startswith(("wopen", "topen")) and "image" not in k["replay"]]
+    cases = known_cases + [(s, {"corpus": True}) for s in corpus] + [gen_case(ctx.rng, ctx.tier) for _ in range(n)]
     scripts = [c[0] for c in cases]
     impl, mod = run_pair(ctx, scripts, variant, exact=exact, timeout=timeout)
     nviol = 0
@@ -191,7 +194,7 @@ def run_prog_property(ctx, prop_files, gen_case, classes, n_quick, n_thorough, r
             dist[dk] = dist.get(dk, 0) + 1
         ctx.count(k, nontrivial=not meta.get("trivial", False), sample={"script": script[:300], "impl": a[:200]})
         if mism:
-            sig = classify(script, meta, mism) if (classify and not is_corpus) else None
+            sig = meta["known"] if meta.get("known") else (classify(script, meta, mism) if (classify and not is_corpus) else None)
             nviol += 1
             if nviol <= 40:
                 ctx.violation("%s_case_%d.txt" % (ctx.prop.lower(), nviol), replay_text(script, variant, mism, exact),
